@@ -232,6 +232,8 @@ func NewDialogueRunner(storer variable.Storer, rngSeed string, readers ...io.Rea
 		commandStorer:   newCommandStorer(),
 		visitedNodes:    map[string]int{},
 		currentNode:     firstNode.Title(),
+		// the first node is entered right away: that's the first checkpoint
+		variableSnapshot: storer.GetValues(),
 	}
 
 	functionStorer := newFunctionStorer(rng)
@@ -419,7 +421,7 @@ func (dr *DialogueRunner) RestoreAt(snapshot *Snapshot) error {
 		return fmt.Errorf("dialogue does not contain a node with title [%s]", snapshot.CurrentNode)
 	}
 
-	dr.visitedNodes = snapshot.VisitedNodes
+	dr.visitedNodes = copyMap(snapshot.VisitedNodes)
 	dr.variableStorer.Clear()
 	for variable, value := range snapshot.Variables {
 		if value.Boolean != nil {
@@ -433,10 +435,22 @@ func (dr *DialogueRunner) RestoreAt(snapshot *Snapshot) error {
 		}
 	}
 
+	dr.variableSnapshot = copyMap(snapshot.Variables)
 	dr.statementsToRun.Clear()
 	dr.statementsToRun.Push(&statementQueue{statements: node.Statements})
 	dr.currentNode = node.Title()
+	// whatever the runner was waiting for (a choice, the completion of a command) belongs to the abandoned state
+	dr.lastStatement = nil
+	dr.commandErrChan = nil
 	return nil
+}
+
+func copyMap[K comparable, V any](m map[K]V) map[K]V {
+	result := make(map[K]V, len(m))
+	for k, v := range m {
+		result[k] = v
+	}
+	return result
 }
 
 // AddFunction adds a custom function to the library of functions that can be called from a dialogue.
@@ -465,9 +479,9 @@ func (dr *DialogueRunner) ConvertAndAddCommand(commandID string, command any) er
 // It can then be used to later restore the state of the dialogue runner.
 func (dr *DialogueRunner) Snapshot() *Snapshot {
 	return &Snapshot{
-		Variables:    dr.variableSnapshot,
+		Variables:    copyMap(dr.variableSnapshot),
 		CurrentNode:  dr.currentNode,
-		VisitedNodes: dr.visitedNodes,
+		VisitedNodes: copyMap(dr.visitedNodes),
 	}
 }
 
